@@ -42,6 +42,22 @@ impl Clone for MSpan { fn clone(&self) -> MSpan { MSpan { stamp: self.stamp, len
 impl HeapSize for MSpan { fn heap_size(&self) -> usize { self.len } }
 impl MVal for MSpan { fn mk(stamp: u64, heap: usize) -> MSpan { MSpan { stamp, len: heap, keep: std::mem::ManuallyDrop::new(None) } } fn stamp(&self) -> u64 { self.stamp } fn heap(&self) -> usize { self.len } fn set(&mut self, s: u64, h: usize) { self.stamp = s; self.len = h; } }
 
+/// A value with a large inline part (buckets of more than 4 KiB).
+#[derive(Clone, Debug)]
+pub struct BigVal { pub stamp: u64, pub len: usize, pub pad: [u8; 4096] }
+impl HeapSize for BigVal { fn heap_size(&self) -> usize { self.len } }
+impl MVal for BigVal { fn mk(stamp: u64, heap: usize) -> BigVal { BigVal { stamp, len: heap, pad: [stamp as u8; 4096] } } fn stamp(&self) -> u64 { debug_assert!(self.pad[17] == self.pad[4095]); self.stamp } fn heap(&self) -> usize { self.len } fn set(&mut self, s: u64, h: usize) { self.stamp = s; self.len = h; self.pad = [s as u8; 4096]; } }
+
+/// An over-aligned value (the bucket type inherits the alignment).
+#[derive(Clone, Debug)]
+#[repr(align(64))]
+pub struct Aligned64 { pub stamp: u64, pub len: usize }
+impl HeapSize for Aligned64 { fn heap_size(&self) -> usize { self.len } }
+impl MVal for Aligned64 { fn mk(stamp: u64, heap: usize) -> Aligned64 { Aligned64 { stamp, len: heap } } fn stamp(&self) -> u64 { assert_eq!(self as *const Aligned64 as usize % 64, 0, "misaligned value handed out"); self.stamp } fn heap(&self) -> usize { self.len } fn set(&mut self, s: u64, h: usize) { self.stamp = s; self.len = h; } }
+
+impl MKey for Box<str> { fn mk(id: u32) -> Box<str> { format!("boxed-key-{}", id).into_boxed_str() } fn id(&self) -> u32 { self[10..].parse().unwrap() } }
+impl MKey for (u8, u32) { fn mk(id: u32) -> (u8, u32) { ((id % 3) as u8, id) } fn id(&self) -> u32 { self.1 } }
+
 #[derive(Clone, Debug, PartialEq)]
 struct MEnt { id: u32, stamp: u64, heap: usize, size: usize }
 
@@ -167,6 +183,9 @@ pub fn run_model(seed: u64, budget: u64, out: &mut RunOut) {
         run_one::<u32, DSpan>("K=u32,V=span-with-Drop", &mut rng, out);
         run_one::<PKey, MSpan>("K=Copy-declared,V=ManuallyDrop-span", &mut rng, out);
         run_one::<String, Span>("K=String,V=Copy-span", &mut rng, out);
+        run_one::<u32, BigVal>("K=u32,V=4KiB-inline", &mut rng, out);
+        run_one::<Box<str>, Aligned64>("K=Box<str>,V=align64", &mut rng, out);
+        run_one::<(u8, u32), DSpan>("K=(u8,u32),V=span-with-Drop", &mut rng, out);
     }
 }
 
